@@ -35,17 +35,59 @@ impl Rng {
 // ------------------------------------------------------------------------------------------------ counting allocator (C18)
 struct CountAlloc;
 static ALLOCS: AtomicUsize = AtomicUsize::new(0);
+/// live blocks (allocated, not yet released), and the first layout mismatch / release of a dead block seen (C03, C06)
+static LIVE_BLOCKS: std::sync::atomic::AtomicIsize = std::sync::atomic::AtomicIsize::new(0);
+static LAYOUT_MISMATCH: AtomicUsize = AtomicUsize::new(0);
+static MISMATCH_INFO: [AtomicUsize; 4] = [AtomicUsize::new(0), AtomicUsize::new(0), AtomicUsize::new(0), AtomicUsize::new(0)];
+const HDR_MAGIC: usize = 0x5EED_A110_C0DE_0001;
+const HDR_DEAD: usize = 0xDEAD_A110_C0DE_0002;
+/// Every block carries a header in front of it (magic, size, align): dealloc / realloc are checked against the layout
+/// the block was allocated with - Rust requires them to be the same - and against double release.
+fn hdr_off(align: usize) -> usize { if align > 32 { align } else { 32 } }
 unsafe impl std::alloc::GlobalAlloc for CountAlloc {
     unsafe fn alloc(&self, l: std::alloc::Layout) -> *mut u8 {
         ALLOCS.fetch_add(1, Ordering::Relaxed);
-        std::alloc::System.alloc(l)
+        let off = hdr_off(l.align());
+        let full = match std::alloc::Layout::from_size_align(l.size() + off, l.align().max(8)) { Ok(f) => f, Err(_) => return std::ptr::null_mut() };
+        let base = std::alloc::System.alloc(full);
+        if base.is_null() { return base; }
+        let p = base.add(off);
+        let h = p.sub(24) as *mut usize;
+        h.write(HDR_MAGIC); h.add(1).write(l.size()); h.add(2).write(l.align());
+        LIVE_BLOCKS.fetch_add(1, Ordering::Relaxed);
+        p
     }
     unsafe fn dealloc(&self, p: *mut u8, l: std::alloc::Layout) {
-        std::alloc::System.dealloc(p, l)
+        let h = p.sub(24) as *mut usize;
+        let (magic, size, align) = (h.read(), h.add(1).read(), h.add(2).read());
+        if magic != HDR_MAGIC || size != l.size() || align != l.align() {
+            if LAYOUT_MISMATCH.fetch_add(1, Ordering::Relaxed) == 0 {
+                MISMATCH_INFO[0].store(if magic == HDR_DEAD { 1 } else if magic != HDR_MAGIC { 2 } else { 0 }, Ordering::Relaxed);
+                MISMATCH_INFO[1].store(size, Ordering::Relaxed); MISMATCH_INFO[2].store(l.size(), Ordering::Relaxed); MISMATCH_INFO[3].store(l.align() * 1_000_000 + align, Ordering::Relaxed);
+            }
+            if magic != HDR_MAGIC { return; } // unknown / already released block: do not hand it to the system allocator again
+        }
+        h.write(HDR_DEAD);
+        LIVE_BLOCKS.fetch_sub(1, Ordering::Relaxed);
+        let off = hdr_off(align);
+        std::alloc::System.dealloc(p.sub(off), std::alloc::Layout::from_size_align_unchecked(size + off, align.max(8)))
     }
     unsafe fn realloc(&self, p: *mut u8, l: std::alloc::Layout, n: usize) -> *mut u8 {
-        ALLOCS.fetch_add(1, Ordering::Relaxed);
-        std::alloc::System.realloc(p, l, n)
+        let np = self.alloc(std::alloc::Layout::from_size_align_unchecked(n, l.align()));
+        if !np.is_null() {
+            std::ptr::copy_nonoverlapping(p, np, l.size().min(n));
+            self.dealloc(p, l);
+        }
+        np
+    }
+}
+fn mismatch_text() -> String {
+    let k = MISMATCH_INFO[0].load(Ordering::Relaxed);
+    let (a, b, c) = (MISMATCH_INFO[1].load(Ordering::Relaxed), MISMATCH_INFO[2].load(Ordering::Relaxed), MISMATCH_INFO[3].load(Ordering::Relaxed));
+    match k {
+        1 => "a block was released twice".to_string(),
+        2 => "a pointer that is not the start of a live block was released".to_string(),
+        _ => format!("dealloc was handed a layout of {b} bytes (align {}) for a block allocated with {a} bytes (align {})", c / 1_000_000, c % 1_000_000),
     }
 }
 #[global_allocator]
@@ -464,7 +506,9 @@ fn collections_history(prop: &'static str, rng: &mut Rng, it: usize, skip_refuse
         let mut cx = Context::from_waker(&waker);
         let mut yielded: Vec<usize> = vec![];
         let mut wakes_total = 0usize;
-        let steps = 4 + rng.below(14);
+        // every fifth history of an unbounded collection is long, so that three and more groups (1 + 2 + 4 ... futures when
+        // started from capacity 1) are created, emptied, removed and rotated within one history
+        let steps = if !bounded && it % 5 == 2 { 20 + rng.below(25) } else { 4 + rng.below(14) };
         // a refused push must leave the collection undisturbed (C15): once a push has been refused in this history, a
         // lost / misordered output is ALSO evidence against C15
         let refused = Cell::new(false);
@@ -572,7 +616,7 @@ fn collections_history(prop: &'static str, rng: &mut Rng, it: usize, skip_refuse
                                 !c.done.get() && (c.polls.get() == 0 || c.woken_since_poll.get())
                             }).collect();
                             if !missed.is_empty() && after == before {
-                                fail(&["C01"], &hist, format!("Pending with children {:?} pushed/woken but not polled and the task waker not invoked", missed));
+                                fail(&["C01","C13"], &hist, format!("Pending with children {:?} pushed/woken but not polled and the task waker not invoked", missed));
                             }
                             // ordered: head ready & woken must not be parked silently
                         }
@@ -1488,7 +1532,7 @@ fn run_merge(prop: &'static str, seed: u64, iters: usize) {
                     if tw.0.load(Ordering::SeqCst) == before {
                         let missed: Vec<usize> = sts.iter().enumerate().filter(|(i, s)| pushed[*i] && !s.ended.get() && s.fresh.get()).map(|(i, _)| i).collect();
                         if !missed.is_empty() {
-                            fail(&["C01","C11"], &hist, format!("Pending with sources {:?} pushed/woken but not polled and the task waker not invoked", &missed[..missed.len().min(8)]));
+                            fail(&["C01","C11","C13"], &hist, format!("Pending with sources {:?} pushed/woken but not polled and the task waker not invoked", &missed[..missed.len().min(8)]));
                         }
                     }
                 }
@@ -1529,6 +1573,79 @@ fn run_merge(prop: &'static str, seed: u64, iters: usize) {
     }
 }
 
+
+// ------------------------------------------------------------------------------------------------ shared waker allocation (C03, C06): sequential life cycles on the real crate
+/// Child wakers cloned, invoked and dropped in different orders relative to the collection, for capacities 1..=9.  The
+/// checking allocator reports a release with the wrong layout, a double release and (by the live-block count) a leak;
+/// the task waker's reference count shows a leaked registration.
+fn run_waker_lifecycle(prop: &'static str) {
+    if prop != "C03" && prop != "C06" {
+        return;
+    }
+    let tw = Arc::new(CountWaker(AtomicUsize::new(0)));
+    for cap in 1..=9usize {
+        for order in 0..6usize {
+            let scenario = format!("FuturesUnorderedBounded::new({cap}), every child keeps a clone of its waker; life-cycle order #{order}");
+            let mut hist: Vec<&'static str> = Vec::with_capacity(8);
+            let live0 = LIVE_BLOCKS.load(Ordering::Relaxed);
+            {
+                let waker = Waker::from(tw.clone());
+                let mut cx = Context::from_waker(&waker);
+                let mut q = FuturesUnorderedBounded::new(cap);
+                let sts: Vec<St> = (0..cap).map(|_| Rc::new(ChildSt::default())).collect();
+                for (i, st) in sts.iter().enumerate() { let _ = q.try_push(Fut::new(i, st.clone())); }
+                let _ = Pin::new(&mut q).poll_next(&mut cx);
+                let mut ws: Vec<Waker> = sts.iter().filter_map(|s| s.waker.borrow_mut().take()).collect();
+                hist.push("push one pending future per slot; poll; take the child wakers the futures stored");
+                match order {
+                    0 => { drop(q); hist.push("drop collection; wake() every waker"); for w in ws.drain(..) { w.wake(); } }
+                    1 => { drop(q); hist.push("drop collection; drop every waker"); ws.clear(); }
+                    2 => { for w in &ws { w.wake_by_ref(); } drop(q); hist.push("wake_by_ref all; drop collection; drop wakers"); ws.clear(); }
+                    3 => {
+                        if let Some(w0) = ws.first().cloned() { w0.clone().wake(); w0.wake(); }
+                        let _ = Pin::new(&mut q).poll_next(&mut cx);
+                        drop(q);
+                        hist.push("two clones of waker 0 woken by value; poll; drop collection; drop wakers");
+                        ws.clear();
+                    }
+                    4 => {
+                        let extra = ws.last().cloned();
+                        drop(q);
+                        if let Some(e) = extra { e.wake_by_ref(); e.wake(); }
+                        hist.push("clone last waker; drop collection; wake_by_ref + wake the clone; drop the rest");
+                        ws.clear();
+                    }
+                    _ => {
+                        for st in &sts { st.ready.set(true); }
+                        for w in &ws { w.wake_by_ref(); }
+                        let mut guard = 0;
+                        while let Poll::Ready(Some(o)) = Pin::new(&mut q).poll_next(&mut cx) { drop(o); guard += 1; if guard > 20 { break; } }
+                        let st2: St = Rc::new(ChildSt::default());
+                        let _ = q.try_push(Fut::new(99, st2.clone()));
+                        let _ = Pin::new(&mut q).poll_next(&mut cx);
+                        drop(q);
+                        hist.push("complete all, drain, reuse a slot, poll, drop collection; wake() the stale wakers");
+                        for w in ws.drain(..) { w.wake(); }
+                        st2.waker.borrow_mut().take();
+                    }
+                }
+            }
+            let mism = LAYOUT_MISMATCH.load(Ordering::Relaxed);
+            let live1 = LIVE_BLOCKS.load(Ordering::Relaxed);
+            let leaked = live1 - live0;
+            let hist2: Vec<String> = hist.iter().map(|s| s.to_string()).collect();
+            if mism > 0 {
+                report(&Fail { prop, scenario, history: hist2, what: format!("the shared waker allocation was released wrongly: {}", mismatch_text()) });
+            }
+            if leaked != 0 {
+                report(&Fail { prop, scenario, history: hist2, what: format!("{leaked} heap block(s) still allocated after the collection and every waker are gone (the shared waker allocation is leaked)") });
+            }
+            if Arc::strong_count(&tw) != 1 {
+                report(&Fail { prop, scenario, history: hist2, what: format!("the task waker registered with the collection is still referenced {} time(s) after the collection and every waker are gone", Arc::strong_count(&tw) - 1) });
+            }
+        }
+    }
+}
 
 // ------------------------------------------------------------------------------------------------ C18 unbounded family: allocations do not grow with the number of children processed
 /// Steady-state scenarios: the same work repeated at a constant peak population.  After a warm-up (the groups / heaps have
@@ -1837,7 +1954,9 @@ fn main() {
             }
             run_adapters(prop, seed, iters);
         }
+        "C03" => run_waker_lifecycle(prop),
         "C06" | "C07" => {
+            run_waker_lifecycle(prop);
             run_join(prop, seed, iters);
             run_collections(prop, seed, iters / 4);
             run_adapters(prop, seed, iters / 4);
